@@ -108,8 +108,13 @@ def oracle(ctx, seeds=None):
         nsteps = int(rng.integers(2, 9))
         T = dt0 * nsteps * float(rng.uniform(0.8, 1.1))
         tsave, kind = rand_tsave(rng, t0, dt0, T)
-        mode = int(rng.integers(3))      # 0: stop by tsave[-1]; 1: maxit only; 2: both tottime and maxit
+        mode = int(rng.integers(4))      # 0: stop by tsave[-1]; 1: maxit only; 2: both tottime and maxit; 3: both, the other key order
         stop = None if mode == 0 else ({'maxit': nsteps} if mode == 1 else {'tottime': t0 + T, 'maxit': nsteps + int(rng.integers(-1, 2))})
+        if mode == 3:
+            stop = {'maxit': stop['maxit'], 'tottime': stop['tottime']}
+            if i % 2:
+                tsave = []               # no save times: the criteria are exactly the caller's, in the caller's order
+        stop_keep = None if stop is None else dict(stop)
         use_restart = (i % 5 == 0)
         rp = dict(cfg=cfg, integrator=name, cfl=cfl, t0=t0, it0=f0.it, tsave=tsave, stop=stop, restart=use_restart)
         mk = lambda: getattr(impl.integ, name)(msh, disc)
@@ -139,6 +144,17 @@ def oracle(ctx, seeds=None):
             res.fail(key + ':caller-field-modified', "the initial field was modified by the call", rp)
         nit = s.nit()
         tend = float(s.Qn.time)
+        # a stop dictionary (and a save-time list) that served one call serves a later call like a fresh copy of it
+        if stop is not None and 'maxit' in stop:
+            ts2 = [float(x + 0.5 * T) for x in tsave]
+            def again():
+                a_ = mk(); ra = a_.solve(keep.copy(), cfl, ts2, stop=stop)
+                b_ = mk(); rb = b_.solve(keep.copy(), cfl, list(ts2), stop=dict(stop_keep))
+                return (a_.nit(), [float(q.time) for q in ra]), (b_.nit(), [float(q.time) for q in rb])
+            ok2, o2 = impl.guarded(again)
+            if ok2 and o2[0] != o2[1]:
+                res.fail(key + ':reused-stop-dict', "a second call given the SAME stop dictionary object %r behaves differently from a call given a fresh copy: %r iterations / snapshot times %r versus %r / %r" %
+                         (stop_keep, o2[0][0], o2[0][1], o2[1][0], o2[1][1]), rp)
         # reference trajectory
         ok, traj = impl.guarded(trajectory, mk, keep, cfl, nit)
         if not ok:
